@@ -100,6 +100,10 @@ pub trait Property: Sync {
     fn expected_probes(&self, _tier: Tier) -> Vec<&'static str> {
         vec![]
     }
+    /// further coverage facts computed from the tier and the number of runs (merged into the evidence)
+    fn coverage_extra(&self, _tier: Tier, _runs: u64) -> serde_json::Value {
+        serde_json::Value::Null
+    }
     /// short description of a case for the evidence samples
     fn sample(&self, case: &Self::Case) -> serde_json::Value {
         serde_json::to_value(case).unwrap_or(serde_json::Value::Null)
@@ -641,7 +645,7 @@ pub fn run_check<P: Property>(p: &P, opts: &Opts) -> i32 {
     }
     if opts.write_evidence {
         let runs = tally.runs;
-        let ev = serde_json::json!({
+        let mut ev = serde_json::json!({
             "property_id": id,
             "tier": opts.tier.name(),
             "seed": opts.seed,
@@ -670,6 +674,10 @@ pub fn run_check<P: Property>(p: &P, opts: &Opts) -> i32 {
             "wall_s": wall,
             "violations": n_viol + if regression_exit == EXIT_OK { 0 } else { 1 },
         });
+        let extra = p.coverage_extra(opts.tier, runs);
+        if !extra.is_null() {
+            ev["coverage"]["systematic"] = extra;
+        }
         let dir = opts.out_root.join("evidence");
         let _ = std::fs::create_dir_all(&dir);
         let path = dir.join(format!("{id}.json"));
